@@ -319,7 +319,8 @@ func (t *terminal) encodeKittyKey(ev KeyEvent, flags int) []byte {
 	case KeyF2:
 		return kittyCSI1('Q', modField)
 	case KeyF3:
-		return kittyCSI1('R', modField)
+		// CSI R is the cursor position report; the protocol assigns F3 "13 ~".
+		return kittyCSITilde(13, modField)
 	case KeyF4:
 		return kittyCSI1('S', modField)
 	case KeyF5:
